@@ -93,6 +93,16 @@ def c04_items(tier, rnd):
         # the full six-letter alphabet (incl. bound(..) and bound(Ty)) on a seeded sample of the 6^9 space
         for _ in range(3000 if tier == "quick" else 40000):
             Ps.append(nine_item(t, [rnd.choice(A7) for _ in range(9)], helper))
+    # fields whose usage state suppresses the DEFAULT bound still contribute their explicit levels:
+    # #[default(expr)] with bound(...), on structs and on the default variant of enums
+    for ch in itertools.product(A4, repeat=4):
+        for kind in ("struct", "enum"):
+            f = bf.fld(TY_T, bf.LS({"default": ch[0]}, ch[1], ch[2]), dval=True)
+            if kind == "struct":
+                Ps.append(bf.mkP("struct", "Default", [{"shape": "tuple", "fields": [f, bf.fld(TY_OPT)]}], tb=bf.LS(None, ch[3])))
+            else:
+                Ps.append(bf.mkP("enum", "Default", [{"shape": "unit", "fields": []},
+                                                     {"shape": "named", "dmark": True, "vb": bf.LS(None, ch[3]), "fields": [f, bf.fld(TY_OPT)]}]))
     for t in ("Clone", "Copy", "PartialEq", "Eq", "PartialOrd", "Ord", "Hash", "Debug", "Default"):
         alpha = A4 if tier == "quick" else A6
         if t in ("Debug", "Default"):
@@ -398,4 +408,194 @@ def c03(tier):
     ck.cov["rule"] = ("every derivable trait x 3 parameter lists (type / type,type,const / lifetime,type,const) x type pool (~20 expressions per type parameter) "
                       "x usage states of the field x struct/enum; where-atom sets through both entry points, and every distinct generic program compiled with rustc")
     ck.cov["exhaustive"] = False
+    return ck.finish()
+
+
+# ------------------------------------------------------------------------------------------------
+# C20: whatever expansion accepts without an error of its own type-checks (no error, no warning)
+# ------------------------------------------------------------------------------------------------
+C20_SPECIAL = [
+    ("empty_enum_all", "Clone, Copy, Debug, PartialEq, Eq, PartialOrd, Ord, Hash", "pub enum X {}"),
+    ("empty_enum_generic", "Clone, Debug, PartialEq, Eq, PartialOrd, Ord, Hash", "pub enum X<T> { #[allow(dead_code)] V(::core::convert::Infallible, T) }"),
+    ("single_variant", "Clone, Debug, Default, PartialEq, Eq, PartialOrd, Ord, Hash", "pub enum X<T> { Only { a: T, b: u8 } }"),
+    ("single_unit_variant", "Clone, Copy, Debug, Default, PartialEq, Eq, PartialOrd, Ord, Hash", "pub enum X { Only }"),
+    ("where_self_eq", "Eq, PartialEq", "pub struct X<T> where Self: ::core::marker::Sized, T: ::core::marker::Copy { pub a: T }"),
+    ("where_self_all", "Clone, Debug, Default, PartialEq, Eq, PartialOrd, Ord, Hash", "pub struct X<T> where Self: ::core::marker::Sized { pub a: T }"),
+    ("where_self_ops", "Add, SubAssign, Neg", "pub struct X<T> where Self: ::core::marker::Sized { pub a: T }"),
+    ("param_H_hash", "Hash, PartialEq", "pub struct X<H>(pub H);"),
+    ("param_T_eq", "Eq, PartialEq", "pub struct X<T>(pub T);"),
+    ("lifetime_a_ops", "Add, Sub, AddAssign, Neg, Not", "pub struct X<'a, T>(pub T, pub ::core::marker::PhantomData<&'a ()>) where ::core::marker::PhantomData<&'a ()>: ::core::marker::Copy;"),
+    ("lifetime_a_cmp", "Clone, Debug, PartialEq, Eq, PartialOrd, Ord, Hash", "pub struct X<'a, T>(pub &'a T);"),
+    ("lifetime_a_add_ref", "Add", "pub struct X<'a>(pub W<'a>);\n#[derive(Clone, Copy)] pub struct W<'a>(pub &'a u8);\nimpl<'a> ::core::ops::Add<W<'a>> for W<'a> { type Output = W<'a>; fn add(self, _: W<'a>) -> W<'a> { self } }\nimpl<'a, 'b> ::core::ops::Add<&'b W<'a>> for W<'a> { type Output = W<'a>; fn add(self, _: &'b W<'a>) -> W<'a> { self } }\nimpl<'a, 'b> ::core::ops::Add<W<'a>> for &'b W<'a> { type Output = W<'a>; fn add(self, _: W<'a>) -> W<'a> { *self } }\nimpl<'a, 'b, 'c> ::core::ops::Add<&'c W<'a>> for &'b W<'a> { type Output = W<'a>; fn add(self, _: &'c W<'a>) -> W<'a> { *self } }"),
+    ("const_param_default", "Clone, Debug, Default, PartialEq, Eq, Hash", "pub struct X<T = u8, const N: usize = 2> { pub a: [T; N], pub b: [u8; N] }"),
+    ("param_defaults_eq", "Eq, PartialEq, Ord, PartialOrd", "pub enum X<T = ::std::string::String, const N: usize = 4> { A(T), B([u8; N]) }"),
+    ("unsized_tail_debug", "Debug, PartialEq, Eq, PartialOrd, Ord, Hash", "pub struct X<T: ?Sized> { pub head: u8, pub tail: T }"),
+    ("unsized_slice_tail", "Debug, PartialEq, Eq, PartialOrd, Ord, Hash", "pub struct X(pub u8, pub [u8]);"),
+    ("by_first_middle_last_eq", "PartialEq", "pub struct X { #[partial_eq(by = |a, b| a == b)] pub a: u8, #[partial_eq(by = |a, b| a == b)] pub b: u8, #[partial_eq(by = |a, b| a == b)] pub c: u8 }"),
+    ("by_middle_all", "Ord, PartialOrd, Eq, PartialEq, Hash", "pub struct X { pub a: u8, #[ord(by = |a: &u8, b: &u8| a.cmp(b))] #[hash(by = |a: &u8, s| ::core::hash::Hash::hash(a, s))] pub b: u8, pub c: u8 }"),
+    ("by_generic_field", "Ord, PartialOrd, Eq, PartialEq", "pub struct X<T: ::core::cmp::Ord> { #[ord(by = |a: &T, b: &T| a.cmp(b))] pub a: T, pub b: u8 }"),
+    ("by_generic_enum", "PartialOrd, PartialEq", "pub enum X<T: ::core::cmp::PartialOrd> { A(#[partial_ord(by = |a: &T, b: &T| a.partial_cmp(b))] T, u8), B }"),
+    ("hash_by_generic", "Hash", "pub struct X<T: ::core::hash::Hash>(#[hash(by = |a: &T, s| ::core::hash::Hash::hash(a, s))] pub T);"),
+    ("key_generic_explicit_bound", "Ord, PartialOrd, Eq, PartialEq, Hash", "pub struct X<T> { #[ord(key = $.len(), bound(T: ::core::marker::Sized))] pub a: ::std::vec::Vec<T> }"),
+    ("raw_idents", "Clone, Debug, Default, PartialEq, Eq, PartialOrd, Ord, Hash", "pub struct r#X<r#T> { pub r#type: r#T, pub r#fn: u8 }"),
+    ("raw_enum", "Clone, Debug, PartialEq, Eq, PartialOrd, Ord, Hash", "pub enum X { r#match { r#loop: u8 }, r#type(u8), r#Self_ }"),
+    ("local_names_fields", "Clone, Debug, Default, PartialEq, Eq, PartialOrd, Ord, Hash, Add, AddAssign, Neg", "pub struct X { pub this: i8, pub other: i8, pub state: i8, pub f: i8, pub rhs: i8, pub source: i8, pub lhs: i8, pub o: i8 }"),
+    ("local_names_variants", "Clone, Debug, PartialEq, Eq, PartialOrd, Ord, Hash", "pub enum X { this { other: u8, state: u8 }, to_index(u8), f }"),
+    ("param_named_like_locals", "Clone, Debug, Default, PartialEq, Eq, PartialOrd, Ord, Hash", "pub struct X<this, other, state>(pub this, pub other, pub state);"),
+    ("param_named_f_debug", "Debug", "pub struct X<f>(pub f);"),
+    ("const_named_like_locals", "Clone, Debug, PartialEq, Eq, Hash", "pub struct X<const o: usize, const to_index: usize>(pub [u8; o], pub [u8; to_index]);"),
+    ("nested_generics", "Clone, Debug, Default, PartialEq, Eq, PartialOrd, Ord, Hash", "pub struct X<T, U>(pub ::core::option::Option<(T, ::std::vec::Vec<U>)>, pub ::core::marker::PhantomData<fn(T) -> U>);"),
+    ("deref_generic_where", "Deref, DerefMut", "pub struct X<T> where T: ::core::clone::Clone { pub inner: ::std::vec::Vec<T> }"),
+    ("default_values", "Default", "pub enum X<T> { A, #[default] B { #[default(5)] a: u8, #[default(\"s\")] b: ::std::string::String, c: ::core::option::Option<T> } }"),
+    ("debug_transparent_generic", "Debug", "pub enum X<T, U> { A(#[debug(transparent)] T, #[debug(ignore)] U), B { #[debug(ignore)] u: U } }"),
+    ("copy_clone_generic", "Copy, Clone", "pub enum X<T> { A(::core::marker::PhantomData<T>), B(*const T), C(fn(T) -> T) }"),
+    ("impl_ops_generic_self", "Add, AddAssign", "impl<T: ::core::clone::Clone> ::core::ops::Add<&G<T>> for &G<T> where G<T>: ::core::clone::Clone { type Output = G<T>; fn add(self, _r: &G<T>) -> G<T> { self.clone() } }\n#[derive(Clone)] pub struct G<T>(pub T);"),
+    ("impl_ops_where_self", "Sub", "impl ::core::ops::Sub<Y> for Y where Self: ::core::clone::Clone { type Output = Self; fn sub(self, _r: Y) -> Self { self } }\n#[derive(Clone)] pub struct Y(pub u8);"),
+]
+
+
+def c20_program(attr, item, entry="attr"):
+    if entry == "attr":
+        head = "#[::derive_ex::derive_ex(%s)]" % attr
+    else:
+        head = "#[derive(::derive_ex::Ex)] #[derive_ex(%s)]" % attr
+    return "#![deny(warnings)]\n#![allow(dead_code, non_camel_case_types, non_snake_case, non_upper_case_globals)]\n%s %s\n" % (head, item)
+
+
+def c20_random_items(tier, rnd):
+    """the C03 grammar crossed with what it keeps apart: several traits at once, key/by/ignore/reverse and debug/default attributes on
+    generic fields, continuing explicit bounds, enums and structs"""
+    out = []
+    N = 1200 if tier == "quick" else 12000
+    trait_sets = [["Clone", "Debug", "Default", "PartialEq", "Eq", "PartialOrd", "Ord", "Hash"], ["Copy", "Clone"], ["PartialEq", "Hash"], ["PartialOrd", "PartialEq"],
+                  ["Ord", "PartialOrd", "Eq", "PartialEq"], ["Debug", "Default"], ["Add", "Sub", "AddAssign", "Neg", "Not"], ["Eq", "PartialEq", "Hash", "Clone"],
+                  ["Hash"], ["Ord", "PartialOrd", "Eq", "PartialEq", "Hash", "Clone", "Debug"]]
+    param_sets = [[{"k": "type"}], [{"k": "type"}, {"k": "type"}, {"k": "const"}], [{"k": "lifetime"}, {"k": "type"}, {"k": "const"}]]
+    for n in range(N):
+        D = rnd.choice(trait_sets)
+        ops = any(t in bf.BINOPS or t.endswith("Assign") or t in ("Neg", "Not") for t in D)
+        ps = copy.deepcopy(rnd.choice(param_sets))
+        t0 = D[0]
+        pool = pool_for("Add" if ops else ("Copy" if "Copy" in D else ("Default" if "Default" in D else t0)), ps)
+        kind = "struct" if ops else rnd.choice(["struct", "enum"])
+        nf = rnd.choice([1, 2, 3])
+        chosen = []
+        for pi in range(1, len(ps) + 1):
+            cands = [x for x in pool if mentions_param(x, pi) and x not in chosen]
+            if not any(mentions_param(x, pi) for x in chosen) and cands:
+                chosen.append(rnd.choice(cands))
+        while len(chosen) < nf:
+            c = rnd.choice([x for x in pool if x not in chosen])
+            chosen.append(c)
+        rnd.shuffle(chosen)
+        fields = []
+        cmpD = [t for t in D if t in cf.TRAITS]
+        for j, ty in enumerate(chosen):
+            f = bf.fld(copy.deepcopy(ty))
+            r = rnd.random()
+            if cmpD and r < 0.45:
+                c = cf.plain()
+                c["ord"] = rnd.choice([{"ign": True, "rev": False, "sel": "none"}, {"ign": False, "rev": True, "sel": "none"}, {"ign": False, "rev": False, "sel": "key"},
+                                       {"ign": False, "rev": True, "sel": "key"}] + ([{"ign": False, "rev": False, "sel": "by"}] if "Hash" not in D else []))
+                if "Hash" in D and rnd.random() < 0.3 and c["ord"]["sel"] == "none" and not c["ord"]["ign"]:
+                    c["hash"] = {"ign": True, "rev": False, "sel": "none"}
+                f["cmp"] = c
+            if "Debug" in D and rnd.random() < 0.25:
+                f["dbg"] = "ignore"
+            if "Default" in D and rnd.random() < 0.25:
+                f["dval"] = True
+            if rnd.random() < 0.2:
+                f["b"] = bf.LS(None, rnd.choice(["Pdd", "dd", "absent"]), rnd.choice(["absent", "dd"]))
+            fields.append(f)
+        tb = bf.LS(None, rnd.choice(["absent", "absent", "dd", "Pdd"]), rnd.choice(["absent", "dd"]))
+        if kind == "struct":
+            P = bf.mkP("struct", t0, [{"shape": rnd.choice(["named", "tuple"]), "fields": fields}], D=D, params=ps, decl=rnd.choice([0, 0, 1]), tb=tb)
+        else:
+            others = [x for x in pool if x not in chosen]
+            v2 = {"shape": rnd.choice(["unit", "tuple"]), "fields": []}
+            if v2["shape"] == "tuple":
+                v2["fields"] = [bf.fld(copy.deepcopy(rnd.choice(others)))]
+            vmain = {"shape": rnd.choice(["named", "tuple"]), "fields": fields, "dmark": "Default" in D}
+            P = bf.mkP("enum", t0, rnd.choice([[vmain, v2], [v2, vmain], [vmain]]), D=D, params=ps, decl=rnd.choice([0, 0, 1]), tb=tb)
+        if "assoc" in json.dumps(P["variants"]):
+            for p in P["params"]:
+                if p["k"] == "type":
+                    p["inline"] = "::dx_support::Tr"
+        P["conc"] = "int" if (ops or "Copy" in D) else "any"
+        out.append(P)
+    return out
+
+
+def c20_item_of(P):
+    """program text for a bounds-family descriptor: per-trait bound applies to the subject trait only; marker traits are declared"""
+    attr, item = bf.item_parts(P)
+    ids = sorted(set(re.findall(r"M_[A-Za-z0-9_]+", attr + item)))
+    decls = "".join("pub trait %s {}\nimpl<T: ?Sized> %s for T {}\n" % (m, m) for m in ids)
+    decls += "".join("pub trait Dcl%d {}\nimpl<T: ?Sized> Dcl%d for T {}\n" % (k, k) for k in range(1, P["decl"] + 1))
+    return attr, item, decls
+
+
+import re
+
+
+def c20(tier):
+    ck = dx.Check("C20", tier)
+    if not model(ck, "nine3"):
+        return ck.finish()
+    rnd = random.Random(dx.seed())
+    progs = []      # (tag, attr, item, decls)
+    for name, attr, item in C20_SPECIAL:
+        progs.append((name, attr, item, ""))
+    for P in c20_random_items(tier, rnd):
+        attr, item, decls = c20_item_of(P)
+        progs.append(("grammar:" + "+".join(P["D"]), attr, item, decls))
+    # own errors: in-process, both entry points
+    reqs = []
+    for tag, attr, item, decls in progs:
+        first = item.split("\n")[0]
+        reqs.append({"k": "expand", "id": len(reqs), "entry": "attr", "attr": attr, "item": first})
+    resps = dx.expand(reqs)
+    wd = os.path.join(dx.WORK, "c20-%d" % os.getpid())
+
+    def comp(ix):
+        i, (tag, attr, item, decls) = ix
+        entry = "attr" if (i % 2 == 0 or item.startswith("impl")) else "derive"
+        first, rest = (item.split("\n", 1) + [""])[:2]
+        src = c20_program(attr, first, entry) + rest + "\n" + decls
+        ok, diags = dx.check_only("p%d" % i, src, wd, deny_warnings=False)
+        ds = [d for d in diags if d.get("level") in ("error", "warning") and "aborting due to" not in d.get("message", "")
+              and "warning emitted" not in d.get("message", "") and "warnings emitted" not in d.get("message", "")]
+        return ok, dx.diag_summary(ds, level=("error", "warning"))[:4], src
+    todo = [(i, p) for i, p in enumerate(progs) if resps[i].get("class") == "items"]
+    res = dict(zip([i for i, _ in todo], dx.pmap(comp, todo)))
+    import shutil
+    shutil.rmtree(wd, ignore_errors=True)
+    events, idx = [], []
+    for i, p in enumerate(progs):
+        own = resps[i].get("class") != "items"
+        if own:
+            continue          # derive_ex answered with a message of its own: the property says nothing more
+        ok, ds, src = res[i]
+        events.append({"ev": "compiles", "rustc_ok": bool(ok and not ds)})
+        idx.append(i)
+    n, bad, jst = dx.tlc_judge("Trace_Bounds", "Trace_Bounds.cfg", events, "c20", chunk=max(300, -(-len(events) // 8)))
+    ck.add_judge(n, jst)
+    for b in bad:
+        i = idx[b]
+        tag, attr, item, decls = progs[i]
+        ok, ds, src = res[i]
+        codes = ",".join(sorted(set(d.get("code") or "?" for d in ds)))
+        sig = {"kind": "rustc_trips_over_generated_code", "tag": tag if not tag.startswith("grammar") else "grammar", "codes": codes}
+        if tag.startswith("grammar"):
+            sig["traits"] = tag.split(":")[1]
+        ck.violation(sig, {"what": "derive_ex reported no error but the generated code does not compile cleanly", "source": src, "diagnostics": ds})
+    ck.notes["programs"] = len(progs)
+    ck.notes["own_errors"] = len(progs) - len(events)
+    ck.sample({"program": res[idx[0]][2][:500]})
+    ck.sample({"program": res[idx[len(idx) // 2]][2][:500]})
+    ck.cov["evaluations"] = len(events)
+    ck.cov["distinct_nontrivial"] = len(set(res[i][2] for i in idx))
+    ck.cov["rule"] = ("hand-written special shapes (empty / single-variant enums, Self in where-clauses, parameters called H / T / 'a, parameter defaults, unsized tails, by on first/middle/last and on generic fields, raw identifiers, names of generator locals) "
+                      "plus a seeded grammar crossing trait lists x struct/enum x 3 parameter lists x the type pool x comparison / debug / default attributes x continuing explicit bounds; metadata-only rustc under deny(warnings)")
+    ck.assumptions.append("decisive oracle: rustc; programs whose own expansion contains compile_error! are out of scope (C05)")
     return ck.finish()
